@@ -191,9 +191,20 @@ def check_C06(run):
         for p in s["chunks"]:
             events += vlib.read_ndjson(p)
     allp = run.path("grid.all.ndjson")
-    vlib.write_ndjson(allp, events)
+    vlib.write_ndjson(allp, [e for e in events if e["k"] != "v2"])
     verdicts = vlib.validate_trace(run, "Trace_Grid", [allp], label="grid")
     judge(run, verdicts)
+    # v2 vectors whose adjusted base equation is negative: full events, judged by Trace_V2
+    negev = [e for e in events if e["k"] == "v2"]
+    if negev:
+        per = max(1, len(negev) // 16 + 1)
+        paths = []
+        for i in range(0, len(negev), per):
+            pth = run.path("gridneg.%d.ndjson" % (i // per))
+            vlib.write_ndjson(pth, negev[i:i + per])
+            paths.append(pth)
+        judge(run, vlib.validate_trace(run, "Trace_V2", paths, pid="C06", label="gridneg"))
+    run.cov["negative_adjusted_base_vectors_judged_individually"] = len(negev)
     # which grid values / band edges were attained, per family and level (from the validated tuples)
     att = {}
     for e in events:
@@ -202,9 +213,8 @@ def check_C06(run):
     edges = [0, 1, 39, 40, 69, 70, 89, 90, 100]
     run.cov["attained_values_per_level"] = {k: len(v) for k, v in sorted(att.items())}
     run.cov["band_edges_attained"] = {k: [x for x in edges if x in v] for k, v in sorted(att.items())}
-    run.cov["negative_equation_tuples"] = sum(1 for e in events if e["k"] == "g" and e.get("neg"))
     run.samples += events[:: max(1, len(events) // 8)][:8]
-    run.assumptions += ["the negative-equation flag of a v2 environmental tuple is looked up by the harness in the list TLC emitted (MC_V2Neg)",
+    run.assumptions += ["v2 environmental vectors whose adjusted base equation is negative (list emitted by TLC, MC_V2Neg) are not collapsed into tuples but judged one by one by TLC",
                         "a severity/band slip at a score value that no vector attains is not detectable (and does not break the property)"]
     return dict(level=MC, rule="every score of every level and version reached by the C01-C05 scans (all base and temporal vectors, the v3 "
                 "effective x temporal product and a seeded sample of the concrete product, the whole v2 environmental domain) plus the report score "
@@ -352,4 +362,95 @@ def check_C18(run):
                 evaluations=s["extra"]["function_calls"], distinct_nontrivial=s["distinct"], exhaustive=True)
 
 
-CHECKS = {"C17": check_C17, "C18": check_C18, "C07": check_C07, "C08": check_C08, "C09": check_C09, "C10": check_C10, "C11": check_C11, "C14": check_C14, "C06": check_C06, "C13": check_C13, "C20": check_C20, "C04": check_C04, "C05": check_C05, "C03": check_C03, "C01": check_C01, "C02": check_C02}
+# ---------------------------------------------------------------------------
+# C12 / C15: the Objects machine (Objects.tla, MC_Objects, Trace_Objects)
+# ---------------------------------------------------------------------------
+def object_histories(run, pid, reps):
+    res = vlib.run_tlc(run, "MC_Objects", dump=True)
+    pre = run.path("prefixes.ndjson")
+    n = 0
+    with open(pre, "w") as f:
+        for st in vlib.parse_dump(res["dump"]):
+            if st["hist"]:
+                f.write(json.dumps({"fam": st["fam"], "lvl": st["lvl"], "hist": st["hist"]}) + "\n")
+                n += 1
+    s = harness_json(run, ["objects", "-in", pre, "-reps", str(reps), "-out", run.work, "-tier", run.tier, "-pid", pid])
+    verdicts = vlib.validate_trace(run, "Trace_Objects", s["chunks"], pid=pid, label="objects")
+    judge(run, verdicts, describe=lambda ev: "history %s step %s: %s" % (ev.get("h"), ev.get("i"), json.dumps(ev.get("op"))))
+    run.cov["receiver_state_prefixes_from_tlc"] = n
+    run.cov["history_steps"] = s["distinct"]
+    run.samples += [x.get("op") for x in s.get("samples", [])[:4] if isinstance(x, dict)]
+    return s
+
+
+def check_C12(run):
+    s = object_histories(run, "C12", 2)
+    obs, dist = s["observations"], s["distinct"]
+    for fam in ("v3", "v2"):
+        modes = [("char", "1", "base")] if run.quick else [("char", "1", "all"), ("token", "1", "all")]
+        files = [tlc_strings(run, fam, m, d, sd, "c12-%s-%s%s" % (fam, m, d))[0] for (m, d, sd) in modes]
+        allin = run.path("c12-strings-%s.ndjson" % fam)
+        with open(allin, "w") as o:
+            for p in files:
+                o.write(open(p).read())
+        h = harness_json(run, ["lang", "-fam", fam, "-in", allin, "-valid", "3000", "-edits", "20000" if run.quick else "300000",
+                               "-bytes", "40000" if run.quick else "1000000", "-deep=false", "-nilrecv", "-long", "24" if run.quick else "200",
+                               "-out", run.work, "-tier", run.tier, "-pid", "C12"])
+        verdicts = vlib.validate_trace(run, "Trace_Lang", h["chunks"], pid="C12", label="c12-" + fam)
+        judge(run, verdicts, describe=lambda ev: ev.get("s", "")[:200])
+        obs += h["observations"]
+        dist += h["distinct"]
+        run.cov.setdefault("decode_inputs", {})[fam] = h["extra"]
+    run.assumptions += ["'any bytes, any length' is sampled: seeded random byte strings (length 0-64), edits of valid vectors, degenerate and long inputs "
+                        "(thousands of separators, 1-8 MiB); inputs longer than 300 bytes are judged for panic and object-xor-error only",
+                        "the state a failed Decode leaves in its receiver is unspecified: queries on it must not panic; if it shows an unknown "
+                        "value the invalid-object rule applies"]
+    return dict(level=EXPL, rule="(a) every receiver state MC_Objects reaches (6 object kinds x {constructor, nil} x 14 decode inputs x field / version "
+                "resets) followed by every query through every accessor, each step validated by TLC against Objects.tla; (b) seeded random and "
+                "TLC-explored strings through all six decoders via constructor and via nil receiver; distinct = distinct recorded event",
+                evaluations=obs, distinct_nontrivial=dist, exhaustive=False)
+
+
+def check_C15(run):
+    s = object_histories(run, "C15", 3)
+    o = harness_json(run, ["orders", "-n", "2000" if run.quick else "60000", "-out", run.work, "-tier", run.tier, "-pid", "C15"])
+    verdicts = vlib.validate_trace(run, "Trace_Objects", o["chunks"], pid="C15", label="orders")
+    judge(run, verdicts, describe=lambda ev: ev.get("s", "")[:200])
+    run.cov.update(o["extra"])
+    run.assumptions += ["object state = exported fields (read through the harness constant tables) + the unexported names maps (read by reflection) "
+                        "+ a digest of every package-level table as observable through the public API"]
+    return dict(level=MC, rule="every history MC_Objects generates is executed; after each step the snapshot of every live object and the table digest "
+                "are recorded; TLC checks each query as a stuttering step of Objects (snapshots and tables UNCHANGED), that repeated calls agree and "
+                "that the result equals the one of a freshly decoded twin; plus %d vectors (with near-duplicates: other version, other level, one edit) "
+                "decoded in three processing orders with report construction interleaved" % o["extra"]["vectors"],
+                evaluations=s["observations"] + o["observations"] * 3, distinct_nontrivial=s["distinct"] + o["distinct"], exhaustive=False)
+
+
+# ---------------------------------------------------------------------------
+# C19: template export (Template.tla, MC_Template, Trace_Template)
+# ---------------------------------------------------------------------------
+def check_C19(run):
+    res = vlib.run_tlc(run, "MC_Template", dump=True, env={"VERIF_DEPTH": "2" if run.quick else "3"}, timeout=3000)
+    tp = run.path("templates.ndjson")
+    n = 0
+    with open(tp, "w") as f:
+        for st in vlib.parse_dump(res["dump"]):
+            if st["segs"]:
+                f.write(json.dumps({"segs": st["segs"], "src": st["src"]}) + "\n")
+                n += 1
+    s, verdicts = record_and_validate(run, ["tmpl", "-in", tp, "-reports", "6" if run.quick else "3"], "Trace_Template", "tmpl")
+    judge(run, verdicts, describe=lambda ev: "%s report (%s), %s export of %r" % (ev.get("lvl"), ev.get("lang"), ev.get("mode"), ev.get("text")))
+    run.cov.update(s["extra"])
+    run.samples = [{"text": x["text"], "lvl": x["lvl"], "mode": x["mode"], "ok": x["ok"], "out": x["out"][:80]} for x in s.get("samples", [])[:6] if isinstance(x, dict)]
+    run.assumptions += ["templates outside the modelled grammar are judged against Go's text/template executed directly on the same report "
+                        "(recorded in the trace as the environment function), exactly as the property words it",
+                        "for templates inside the grammar Template!Render must also agree with text/template, otherwise the run is an infrastructure error"]
+    return dict(level=MC, rule="every template of at most %s segments over Template!Alphabet (41 segment kinds: literals, own / promoted / shadowed / "
+                "qualified field references, if, with, printf, pipelines, comments, trim markers, execution errors, parse errors) plus %d hand-written "
+                "templates outside the grammar, exported from reports of all three levels in two languages through ExportWithString and through "
+                "ExportWith with 1-byte, 7-byte and whole-content readers, failing readers, nil readers and nil reports; one event per export"
+                % ("2" if run.quick else "3", s["extra"]["templates_outside_grammar"]),
+                evaluations=s["observations"], distinct_nontrivial=s["distinct"], exhaustive=False)
+
+
+CHECKS = {"C19": check_C19, "C12": check_C12, "C15": check_C15, "C17": check_C17, "C18": check_C18, "C07": check_C07, "C08": check_C08, "C09": check_C09, "C10": check_C10, "C11": check_C11, "C14": check_C14, "C06": check_C06, "C13": check_C13, "C20": check_C20, "C04": check_C04, "C05": check_C05, "C03": check_C03, "C01": check_C01, "C02": check_C02}
